@@ -353,6 +353,12 @@ def _container_payload(st: SchemaType, args: List[ast.expr], vals: Dict[str, V],
 
 R = "d42/representation/_representor.py"
 MUTANTS = [
+    {"name": "int max() rejects a maximum equal to the declared minimum, min() accepts the mirror case", "rule": "EMIT-REPLAY",
+     "edits": [("d42/declaration/types/_int_schema.py", "        if (self.props.value is not Nil) and (value > self.props.value):\n            raise make_incorrect_min_error(self, self.props.value, value)\n", "        if (self.props.value is not Nil) and (value > self.props.value):\n            raise make_incorrect_min_error(self, self.props.value, value)\n        if (self.props.max is not Nil) and (value > self.props.max):\n            raise make_incorrect_min_error(self, self.props.max, value)\n"),
+               ("d42/declaration/types/_int_schema.py", "        if (self.props.value is not Nil) and (value < self.props.value):\n            raise make_incorrect_max_error(self, self.props.value, value)\n", "        if (self.props.value is not Nil) and (value < self.props.value):\n            raise make_incorrect_max_error(self, self.props.value, value)\n        if (self.props.min is not Nil) and (value <= self.props.min):\n            raise make_incorrect_max_error(self, self.props.min, value)\n")]},
+    {"name": "neutral: int min()/max() cross-check each other consistently", "expect": "SILENT",
+     "edits": [("d42/declaration/types/_int_schema.py", "        if (self.props.value is not Nil) and (value > self.props.value):\n            raise make_incorrect_min_error(self, self.props.value, value)\n", "        if (self.props.value is not Nil) and (value > self.props.value):\n            raise make_incorrect_min_error(self, self.props.value, value)\n        if (self.props.max is not Nil) and (value > self.props.max):\n            raise make_incorrect_min_error(self, self.props.max, value)\n"),
+               ("d42/declaration/types/_int_schema.py", "        if (self.props.value is not Nil) and (value < self.props.value):\n            raise make_incorrect_max_error(self, self.props.value, value)\n", "        if (self.props.value is not Nil) and (value < self.props.value):\n            raise make_incorrect_max_error(self, self.props.value, value)\n        if (self.props.min is not Nil) and (value < self.props.min):\n            raise make_incorrect_max_error(self, self.props.min, value)\n")]},
     {"name": "int emits .min() before the value", "rule": "EMIT-REPLAY",
      "edits": [(R, "        r = f\"{self._name}.int\"\n\n        if schema.props.value is not Nil:\n            r += f\"({schema.props.value!r})\"\n\n        if schema.props.min is not Nil:\n            r += f\".min({schema.props.min!r})\"\n",
                 "        r = f\"{self._name}.int\"\n\n        if schema.props.min is not Nil:\n            r += f\".min({schema.props.min!r})\"\n\n        if schema.props.value is not Nil:\n            r += f\"({schema.props.value!r})\"\n")]},
